@@ -19,6 +19,8 @@ from __future__ import annotations
 import itertools
 import json
 import math
+import os
+import tempfile
 from fractions import Fraction
 from typing import Any
 
@@ -31,6 +33,7 @@ from harness.c16_funcs import eval_poly
 from harness.c16_funcs import is_f64
 from harness.c16_funcs import poly_abs_sup
 from harness.c16_funcs import poly_partial
+from harness.c16_funcs import read_call_log
 from harness.common import F
 from harness.common import Result
 from harness.common import rat
@@ -284,7 +287,13 @@ def run_impl(case, parallel: str | None = None) -> dict[str, Any]:
     from gemseo.utils.derivatives.finite_differences import FirstOrderFD
 
     cls = {"fd": FirstOrderFD, "cd": CenteredDifferences, "cs": ComplexStep}[case["scheme"]]
-    fn = PolyFunction(case["polys"], scalar_out=bool(case.get("scalar_out")))
+    log_path = None
+    log_fd = None
+    if parallel == "process":
+        fd0, log_path = tempfile.mkstemp(prefix="c16calls")
+        os.close(fd0)
+        log_fd = os.open(log_path, os.O_WRONLY | os.O_APPEND)
+    fn = PolyFunction(case["polys"], scalar_out=bool(case.get("scalar_out")), record_fd=log_fd)
     kwargs: dict[str, Any] = {}
     if case.get("ds"):
         kwargs["design_space"] = make_design_space(case)
@@ -306,13 +315,23 @@ def run_impl(case, parallel: str | None = None) -> dict[str, Any]:
     except Exception as e:  # noqa: BLE001
         out["exc"] = common.exc_class(e)
         out["exc_msg"] = repr(e)[:160]
-        out["calls"] = list(fn.calls)
+        out["calls"] = _calls(fn, log_fd, log_path)
         return out
     out["J"] = np.asarray(jac)
-    out["calls"] = list(fn.calls)
+    out["calls"] = _calls(fn, log_fd, log_path)
     out["inexact"] = fn.inexact
     out["fmax"] = fn.fmax
     return out
+
+
+def _calls(fn, log_fd, log_path):
+    if log_fd is None:
+        return list(fn.calls)
+    os.close(log_fd)
+    try:
+        return read_call_log(log_path)
+    finally:
+        os.unlink(log_path)
 
 
 def jac_matrix(case, J: np.ndarray):
@@ -627,7 +646,8 @@ def gen_disc_case(rng) -> dict[str, Any]:
     in_sizes = [[f"x{i}", rng.pick([1, 1, 2, 3])] for i in range(n_in)]
     n = sum(s for _, s in in_sizes)
     while n > 5:
-        in_sizes[-1][1] = max(1, in_sizes[-1][1] - 1)
+        big = max(range(n_in), key=lambda i: in_sizes[i][1])
+        in_sizes[big][1] -= 1
         n = sum(s for _, s in in_sizes)
     n_out = rng.pick([1, 2, 2])
     out_sizes = [[f"y{i}", rng.pick([1, 2, 2])] for i in range(n_out)]
@@ -932,7 +952,7 @@ def check_cases(res: Result, cases: list[dict[str, Any]], rng, scope: bool = Tru
         res.evaluations += 1
         impl_ser = run_impl(case)
         impl_par = run_impl(case, par) if par else None
-        observed = impl_par if par == "thread" else impl_ser
+        observed = impl_par if par else impl_ser
         k = len(eff_idx(case))
         res.count(f"scheme={case['scheme']}")
         res.count(f"n={case['n']}")
@@ -941,7 +961,9 @@ def check_cases(res: Result, cases: list[dict[str, Any]], rng, scope: bool = Tru
         res.count("ds=none" if not case.get("ds") else ("ds=normalized" if case["ds"]["normalize"] else "ds=physical"))
         if par:
             res.count(f"parallel={par}")
-        if case.get("ds"):
+        if not scope:
+            res.count("out-of-scope-probe")
+        if case.get("ds") and scope:
             x = frl(case["x"])
             for c in eff_idx(case):
                 lo, up = work_bounds(case, c)
@@ -1095,9 +1117,8 @@ def run(ctx) -> Result:
     for i in range(0, len(batch), 2000):
         check_cases(res, batch[i : i + 2000], rng)
     # parallel == serial
-    npar = 400 if ctx.thorough else 60
-    check_cases(res, [gen_exact_case(rng, res) for _ in range(npar)], rng, True, "thread")
-    check_cases(res, [gen_exact_case(rng, res) for _ in range(8 if ctx.thorough else 3)], rng, True, "process")
+    npar = 600 if ctx.thorough else 80
+    check_cases(res, [gen_exact_case(rng, res) for _ in range(npar)], rng, True, "process")
     # discipline level
     ndisc = 1500 if ctx.thorough else 150
     dcs = []
